@@ -118,7 +118,13 @@ func runMutant(repo, verif, prop string, known []eng.KnownFinding, m Mutant) mut
 			res.Status = "silent"
 		} else {
 			res.Status = "false-alarm"
-			res.Detail = strings.Join(out.Lines, "\n")
+			var ls []string
+			for _, l := range out.Lines {
+				if !strings.HasPrefix(l, "KNOWN-FINDING") {
+					ls = append(ls, l)
+				}
+			}
+			res.Detail = strings.Join(ls, "\n")
 		}
 		return res
 	}
@@ -140,6 +146,7 @@ func mutantsCmd(args []string) int {
 	fs := flag.NewFlagSet("mutants", flag.ExitOnError)
 	prop := fs.String("property", "all", "property id or all")
 	only := fs.String("only", "", "run only the mutant with this name")
+	verbose := fs.Bool("v", false, "print every report line of a false alarm / miss")
 	repo := fs.String("repo", "/repo", "")
 	verif := fs.String("verif", "/verif", "")
 	_ = fs.Parse(args)
@@ -170,6 +177,13 @@ func mutantsCmd(args []string) int {
 				fmt.Printf("%-7s %-12s %-50s expected=%v reported=%v %s\n", pid, r.Status, r.Name, r.Expected, r.Reported, firstLine(r.Detail))
 				if r.Status == "missed" || r.Status == "false-alarm" || r.Status == "invalid" {
 					rc = 1
+					if *verbose {
+						for _, l := range strings.Split(r.Detail, "\n") {
+							if !strings.HasPrefix(l, "KNOWN-FINDING") {
+								fmt.Println("        " + l)
+							}
+						}
+					}
 				}
 			}
 		}
